@@ -327,7 +327,7 @@ def _sequence(
     mask: tuple[bool, ...],
 ) -> npt.NDArray[np.int_] | range:
     if fixed_indices is None:
-        return range(prod(shape))
+        return range(prod(external_shape_from_mask(shape, mask)))
     fixed_mask = _mask_fixed_axes(fixed_indices, mapspec, shape, mask)
     assert fixed_mask is not None
     assert len(fixed_mask) == prod(external_shape_from_mask(shape, mask))
